@@ -154,6 +154,10 @@ example : [hb.encode.take 7, hb.encode.drop 7 ++ m1.encode.take 3, m1.encode.dro
 example : ([hb.encode.take 7, hb.encode.drop 7 ++ m1.encode.take 3, m1.encode.drop 3 ++ b1.encode].foldl
     feed init).out = [hb, m1, b1] := by decide
 
+/-- the model's parser has no error output for a buffer that ends inside a frame; the source agrees: the
+    handler of pamqp's "not enough data" exception does nothing (regenerated) -/
+theorem incomplete_is_not_an_error : Gen.Parse.incompleteIsSilent = true := by decide
+
 /-- pamqp alone reports 8 consumed bytes for the first 7 bytes of a heartbeat: without the
     byte-count guard the trailing 0xCE would be left to desynchronise the stream. -/
 theorem heartbeat_cut_without_guard : unmarshalEnv (hb.encode.take 7) = some (8, hb) := by decide
